@@ -5,14 +5,18 @@ package main
 import (
 	"encoding/json"
 	"os"
+	"path/filepath"
 	"strings"
 	"sync"
 	"time"
 
+	"github.com/markusressel/fan2go/internal"
 	"github.com/markusressel/fan2go/internal/configuration"
+	"github.com/markusressel/fan2go/internal/curves"
 	"github.com/markusressel/fan2go/internal/fans"
 	"github.com/markusressel/fan2go/internal/sensors"
 	"github.com/markusressel/fan2go/internal/ui"
+	"github.com/prometheus/client_golang/prometheus"
 )
 
 // driver `exechist` (C19): the persistently hanging command. ONE executable is called again and again — as the
@@ -34,9 +38,21 @@ type exechistCall struct {
 type exechistIn struct {
 	Base    execIn         `json:"base"` // the executable (kind, sleep, hold, output, ...)
 	ViaLink bool           `json:"vialink,omitempty"` // the calls name a symlink to the executable
+	// start-up scenario instead of a call history: the command is in this state ("mode:fail", "mode:garbage",
+	// "mode:sleep", "chmod000", "vanish", "mode:ok") when the real start-up glue reads the sensor for the first time
+	Startup string `json:"startup,omitempty"`
 	Calls   []exechistCall `json:"calls"`
 }
+// exechistStartupObs: one step of a start-up scenario
+type exechistStep struct {
+	Step  string `json:"step"`
+	Class string `json:"class"` // unit | panic | hang
+	Ms    int    `json:"ms"`
+	Msg   string `json:"msg,omitempty"`
+}
+
 type exechistObs struct {
+	Steps []exechistStep `json:"steps,omitempty"`
 	Calls       []execObs `json:"calls"`
 	LoggerTicks int       `json:"logger_ticks"`  // how often the concurrent logger got through
 	LoggerStuck bool      `json:"logger_stuck"`  // it did not get through during the last second of the history
@@ -180,6 +196,116 @@ func exechistRun(pr execPrepared, in exechistIn) (exechistObs, string) {
 	return obs, cList(terms)
 }
 
+// exechistStartup: the daemon's own start-up around a cmd sensor whose command fails AT THE START-UP READ and is
+// healthy afterwards: configuration.CurrentConfig = the cmd sensor + a linear and a PID curve on it, the real
+// internal.InitializeObjects() (gosensors stand-in on an empty tree, fresh registries), then what the fan controllers
+// and the sensor monitor do next: evaluate every curve, poll the sensor, evaluate again. Every step runs under a
+// watchdog; a panic anywhere is the observation "crash". Steps are api-6 calls of Drv/Exec.v.
+func exechistStartup(workDir string, n int, pr execPrepared, in exechistIn) (exechistObs, string) {
+	defer pr.cleanup()
+	var obs exechistObs
+	file := pr.path
+	away := file + ".away"
+	okBeh := cRec("Starts", cRec("mkProc", cRec("ExitCode", "0"), cRec("At", "0"), execCoqText(execTxt("42\n")), cRec("At", "0")))
+	beh, ck := okBeh, 0
+	setMode := func(m string) {
+		_ = os.WriteFile(file+".mode", []byte(m+"\n"), 0o644)
+	}
+	switch in.Startup {
+	case "mode:fail":
+		setMode("fail")
+		beh = cRec("Starts", cRec("mkProc", cRec("ExitCode", "1"), cRec("At", "0"), "[]", cRec("At", "0")))
+	case "mode:garbage":
+		setMode("garbage")
+		beh = cRec("Starts", cRec("mkProc", cRec("ExitCode", "0"), cRec("At", "0"), execCoqText(execTxt("abc\n")), cRec("At", "0")))
+	case "mode:sleep":
+		setMode("sleep")
+		beh = cRec("Starts", cRec("mkProc", cRec("ExitCode", "0"), cRec("At", cZ(in.Base.Sleep)), "[]", cRec("At", "0")))
+	case "chmod000":
+		_ = os.Chmod(file, 0)
+		beh = "(CannotStart SfNoExecBit)"
+	case "vanish":
+		_ = os.Rename(file, away)
+		ck = 1
+	default:
+		setMode("ok")
+	}
+	var terms []string
+	step := func(name string, f func()) bool {
+		t0 := time.Now()
+		done := make(chan string, 1)
+		go func() { done <- catch(f) }()
+		st := exechistStep{Step: name, Class: "unit"}
+		res := "OUnit"
+		select {
+		case pn := <-done:
+			if pn != "" {
+				st.Class, st.Msg, res = "panic", pn, "OPanic"
+			}
+		case <-time.After(9 * time.Second):
+			st.Class, res = "hang", "OHang"
+		}
+		st.Ms = int(time.Since(t0) / time.Millisecond)
+		obs.Steps = append(obs.Steps, st)
+		terms = append(terms, cRec("mkCall", "6", "0", cZ(ck), beh, "None", res, cZ(st.Ms)))
+		return st.Class == "unit"
+	}
+	sid := "verif_cmd_" + itoa(n)
+	saved := configuration.CurrentConfig
+	defer func() { configuration.CurrentConfig = saved }()
+	root := filepath.Join(workDir, "emptyhwmon")
+	_ = os.MkdirAll(root, 0o755)
+	os.Setenv("VERIF_HWMON_ROOT", root)
+	sensors.VerifResetRegistry()
+	curves.VerifResetRegistry()
+	fans.VerifResetRegistry()
+	reg := prometheus.NewRegistry()
+	prometheus.DefaultRegisterer, prometheus.DefaultGatherer = reg, reg
+	configuration.CurrentConfig = configuration.Configuration{
+		TempRollingWindowSize: 10,
+		Sensors:               []configuration.SensorConfig{{ID: sid, Cmd: &configuration.CmdSensorConfig{Exec: file}}},
+		Curves: []configuration.CurveConfig{
+			{ID: "lin_" + sid, Linear: &configuration.LinearCurveConfig{Sensor: sid, Min: 40, Max: 80}},
+			{ID: "pid_" + sid, PID: &configuration.PidCurveConfig{Sensor: sid, SetPoint: 50, P: -0.05, I: -0.005, D: -0.005}},
+		},
+	}
+	ok := step("InitializeObjects", func() { _, _ = internal.InitializeObjects() })
+	// the command is healthy from now on
+	switch in.Startup {
+	case "chmod000":
+		_ = os.Chmod(file, 0o755)
+	case "vanish":
+		_ = os.Rename(away, file)
+	}
+	setMode("ok")
+	beh, ck = okBeh, 0
+	evalAll := func() {
+		for _, id := range []string{"lin_" + sid, "pid_" + sid} {
+			id := id
+			if !ok {
+				return
+			}
+			ok = step("Evaluate "+id[:3], func() {
+				if c, found := curves.GetSpeedCurve(id); found {
+					_, _ = c.Evaluate()
+				}
+			})
+		}
+	}
+	evalAll()
+	for i := 0; i < 3 && ok; i++ {
+		ok = step("updateSensor", func() {
+			if s, found := sensors.GetSensor(sid); found {
+				_ = internal.VerifUpdateSensor(s)
+			} else {
+				obs.Stopped = true // recorded: the sensor monitor has nothing to poll
+			}
+		})
+	}
+	evalAll()
+	return obs, cList(terms)
+}
+
 func init() {
 	drivers["exechist"] = func(ctx *Ctx) {
 		type job struct {
@@ -190,7 +316,7 @@ func init() {
 		var jobs []job
 		for _, raw := range append(ctx.Corpus, ctx.Replay...) {
 			var in exechistIn
-			if json.Unmarshal(raw, &in) == nil && len(in.Calls) > 0 {
+			if json.Unmarshal(raw, &in) == nil && (len(in.Calls) > 0 || in.Startup != "") {
 				jobs = append(jobs, job{in, []string{"corpus"}})
 			}
 		}
@@ -233,6 +359,10 @@ func init() {
 						jobs = append(jobs, job{exechistIn{Base: execIn{Kind: "exit", Code: 0, Out: execTxt("42\n")}, ViaLink: via, Calls: cs}, tags})
 					}
 				}
+			}
+			// the real start-up glue with the command failing at the start-up read (both tiers; sequential, beside the rest)
+			for _, m := range []string{"mode:fail", "mode:garbage", "chmod000", "vanish", "mode:sleep", "mode:ok"} {
+				jobs = append(jobs, job{exechistIn{Base: execIn{Kind: "moded", Sleep: 2000 + long}, Startup: m}, []string{"startup", "startup=" + m}})
 			}
 			// consecutive failures on ONE wrapper object, then success: seven failed reads of one kind (non-zero exit,
 			// garbage output, cannot start, timeout) and a mixed run; every single call within timeout + margin
@@ -302,7 +432,20 @@ func init() {
 			prepared[i] = execPrep(ctx.WorkDir, 100000+i, jobs[i].in.Base)
 		}
 		var wg sync.WaitGroup
+		wg.Add(1)
+		go func() { // start-up scenarios use the daemon's global configuration and registries: one after the other
+			defer wg.Done()
+			for i := range jobs {
+				if jobs[i].in.Startup != "" {
+					o, c := exechistStartup(ctx.WorkDir, i, prepared[i], jobs[i].in)
+					results[i] = res{o, c}
+				}
+			}
+		}()
 		for i := range jobs {
+			if jobs[i].in.Startup != "" {
+				continue
+			}
 			wg.Add(1)
 			go func(i int) {
 				defer wg.Done()
@@ -315,6 +458,9 @@ func init() {
 			tags := append([]string{}, j.tags...)
 			for _, o := range results[i].obs.Calls {
 				tags = append(tags, "out="+o.Class)
+			}
+			for _, o := range results[i].obs.Steps {
+				tags = append(tags, "step="+o.Class)
 			}
 			ctx.Emit(Record{In: j.in, Obs: results[i].obs, Coq: results[i].coq, Tags: tags, NonTrv: true})
 		}
